@@ -300,6 +300,25 @@ class Machinery(Exception):
     pass
 
 
+def gen_dependencies(pid):
+    """other properties whose generated tables the Lean files of `pid` import (transitively)"""
+    seen, todo, deps = set(), [f"BnpVerif.Props.{pid}", f"BnpVerif.Drv.{pid}"], set()
+    while todo:
+        m = todo.pop()
+        if m in seen:
+            continue
+        seen.add(m)
+        f = LEAN / (m.replace(".", "/") + ".lean")
+        if not f.exists():
+            continue
+        for imp in re.findall(r"^import\s+(BnpVerif\.[\w.]+)", f.read_text(), re.M):
+            g = re.match(r"BnpVerif\.Gen\.(C\d\d)$", imp)
+            if g and g.group(1) != pid:
+                deps.add(g.group(1))
+            todo.append(imp)
+    return sorted(deps)
+
+
 def run_check(mod, tier, seed, replay=None):
     """mod: property module with the interface documented in harness/props/README"""
     pid = mod.ID
@@ -319,6 +338,16 @@ def run_check(mod, tier, seed, replay=None):
                 gen_changed.append(rel)
     except Exception as e:  # tabulation of the real code failed: treat as correspondence break
         gen_error = f"{type(e).__name__}: {e}"
+    # the Lean files of this property may import other properties' theorems (C03 imports C02, C15 imports C01, …):
+    # their generated tables must describe the CURRENT tree too, or a stale table breaks this property's build
+    for dep in gen_dependencies(pid):
+        try:
+            dmod = importlib.import_module(f"harness.props.{dep.lower()}")
+            for rel, text in (dmod.regenerate() if hasattr(dmod, "regenerate") else []):
+                if write_if_changed(LEAN / rel, text):
+                    gen_changed.append(rel)
+        except Exception as e:
+            log.append(f"could not regenerate the tables of {dep} (imported by {pid}): {type(e).__name__}: {e}")
     committed_diff = []
     if gen_changed or True:
         rc, out = run(["git", "status", "--porcelain", "--", "lean/BnpVerif/Gen"], cwd=VERIF)
